@@ -7,40 +7,6 @@ import Gojq.Proofs.RoundTripLexStr
 namespace Gojq.RefTerm
 open Gojq Gojq.Lexer Gojq.Generated.Lalr Gojq.Printer
 
-/-- the token is one the lexer can deliver, with a spelling it reads back as that token -/
-def Tok.wf : Tok → Bool
-  | .ch c => okCh c
-  | .ident s => isPlainIdent s
-  | .modIdent s => isModIdent s
-  | .var s => isVarName s
-  | .modVar s => isModVar s
-  | .index s => isIdentName s
-  | .number s => okNumber s
-  | .format s => okFormat s
-  | .kw _ => true
-  | .recurse => true
-  | .op o => isOpTok o
-  | .destAlt => true
-  | .str v => okLit v
-  | .chunk v => okLit v && !v.isEmpty
-  | .strStart => true
-  | .strQuery => true
-  | .strEnd => true
-  | .bad _ => false
-
-/-- tokens read in string mode -/
-def Tok.inStrTok : Tok → Bool
-  | .chunk _ => true
-  | .strQuery => true
-  | .strEnd => true
-  | _ => false
-
-/-- `inString` after the token -/
-def Tok.modeAfter : Tok → Bool
-  | .strStart => true
-  | .chunk _ => true
-  | _ => false
-
 theorem Tok.wf_notBad (t : Tok) (h : t.wf = true) : t.isBad = false := by
   cases t <;> first | rfl | (simp [Tok.wf] at h)
 
@@ -70,23 +36,6 @@ theorem step_tok (t : Tok) (fol : Bytes) (hwf : t.wf = true) (hst : stops t fol 
   | strEnd => exact step_strEnd fol
   | bad _ => cases hwf
 
-/-- THE ADJACENCY CONDITION, decidable: every token is well-formed and read in the mode the
-    tokens before it leave the lexer in, its scanner stops before the text rendered after it, and
-    the printer's separators appear outside strings only.  `last` = the last byte written before
-    the items (for the printer's `soft` space), `inStr` / `stk` = the tokenizer's mode. -/
-def itemsOK : Option UInt8 → Bool → List Nat → List Item → Bool
-  | _, _, _, [] => true
-  | last, inStr, stk, .t t :: r =>
-    t.wf && (t.inStrTok == inStr) && stops t (render (lastOr t.spell last) r) &&
-      itemsOK (lastOr t.spell last) (if (stepStk t stk).2 then true else t.modeAfter) (stepStk t stk).1 r
-  | _, inStr, stk, .sp :: r => !inStr && itemsOK (some 32) false stk r
-  | _, inStr, stk, .nl :: r => !inStr && itemsOK (some 10) false stk r
-  | last, inStr, stk, .soft :: r =>
-    !inStr &&
-      (match last with
-       | some ch => if isDotOrDigit ch then itemsOK (some 32) false stk r else itemsOK last false stk r
-       | none => itemsOK none false stk r)
-
 theorem LexStep_white (w : UInt8) (X : Bytes) (t : Tok) (fol : Bytes) (m : Bool) (hw : isWhite w = true)
     (h : LexStep false X t fol m) : LexStep false (w :: X) t fol m := by
   unfold LexStep at h ⊢
@@ -104,7 +53,7 @@ theorem tkz_white (f : Nat) (w : UInt8) (X : Bytes) (stk : List Nat) (hw : isWhi
 /-- LEXING A TOKEN SEQUENCE: under the adjacency condition the rendered text is read back as
     exactly the tokens -/
 theorem lex_items : ∀ (items : List Item) (last : Option UInt8) (inStr : Bool) (stk : List Nat) (f : Nat),
-    itemsOK last inStr stk items = true → items.length < f →
+    itemsOK last inStr stk items = true → (toks items).length < f →
     tkz f (render last items) inStr stk = toks items := by
   intro items
   induction items with
@@ -114,10 +63,10 @@ theorem lex_items : ∀ (items : List Item) (last : Option UInt8) (inStr : Bool)
     exact tkz_nil k inStr stk
   | cons it r ih =>
     intro last inStr stk f hok hf
-    simp only [List.length_cons] at hf
     obtain ⟨k, rfl⟩ : ∃ k, f = k + 1 := ⟨f - 1, by omega⟩
     cases it with
     | t t =>
+      simp only [toks, List.length_cons] at hf
       simp only [itemsOK, Bool.and_eq_true, beq_iff_eq] at hok
       obtain ⟨⟨⟨hwf, hm⟩, hst⟩, hr⟩ := hok
       have hstep := step_tok t _ hwf hst
@@ -128,32 +77,132 @@ theorem lex_items : ∀ (items : List Item) (last : Option UInt8) (inStr : Bool)
       simp only [itemsOK, Bool.and_eq_true, Bool.not_eq_true'] at hok
       obtain ⟨hm, hr⟩ := hok
       subst hm
-      simp only [render, toks]
+      simp only [render, toks] at hf ⊢
       rw [tkz_white k 32 _ stk (by decide)]
-      exact ih (some 32) false stk (k + 1) hr (by omega)
+      exact ih (some 32) false stk (k + 1) hr hf
     | nl =>
       simp only [itemsOK, Bool.and_eq_true, Bool.not_eq_true'] at hok
       obtain ⟨hm, hr⟩ := hok
       subst hm
-      simp only [render, toks]
+      simp only [render, toks] at hf ⊢
       rw [tkz_white k 10 _ stk (by decide)]
-      exact ih (some 10) false stk (k + 1) hr (by omega)
+      exact ih (some 10) false stk (k + 1) hr hf
     | soft =>
       simp only [itemsOK, Bool.and_eq_true, Bool.not_eq_true'] at hok
       obtain ⟨hm, hr⟩ := hok
       subst hm
-      simp only [render, toks]
+      simp only [render, toks] at hf ⊢
       cases last with
-      | none => exact ih none false stk (k + 1) hr (by omega)
+      | none => exact ih none false stk (k + 1) hr hf
       | some ch =>
         simp only [] at hr ⊢
         split
         · next hd =>
           simp only [hd, if_true] at hr
           rw [tkz_white k 32 _ stk (by decide)]
-          exact ih (some 32) false stk (k + 1) hr (by omega)
+          exact ih (some 32) false stk (k + 1) hr hf
         · next hd =>
           simp only [hd, if_false, Bool.false_eq_true] at hr
-          exact ih (some ch) false stk (k + 1) hr (by omega)
+          exact ih (some ch) false stk (k + 1) hr hf
+
+/-- a well-formed token is spelled with at least one byte -/
+theorem Tok.wf_spell_ne (t : Tok) (h : t.wf = true) : 1 ≤ t.spell.length := by
+  cases t with
+  | ch c => simp [Tok.spell]
+  | ident s =>
+    simp only [Tok.wf, isPlainIdent, Bool.and_eq_true] at h
+    obtain ⟨_, _, e, _⟩ := identName_split s h.1
+    simp [Tok.spell, e]
+  | modIdent s =>
+    obtain ⟨_, _, _, e, _⟩ := modIdent_split s h
+    simp [Tok.spell, e]
+  | var s =>
+    simp only [Tok.wf] at h
+    unfold isVarName at h
+    split at h
+    · simp [Tok.spell]
+    · cases h
+  | modVar s =>
+    simp only [Tok.wf] at h
+    unfold isModVar at h
+    split at h
+    · simp [Tok.spell]
+    · cases h
+  | index s => simp [Tok.spell]
+  | number s =>
+    simp only [Tok.wf] at h
+    unfold okNumber at h
+    split at h
+    · cases h
+    · simp [Tok.spell]
+  | format s =>
+    simp only [Tok.wf] at h
+    unfold okFormat at h
+    split at h
+    · simp [Tok.spell]
+    · cases h
+  | kw w => cases w <;> simp [Tok.spell, Kw.text]
+  | recurse => simp [Tok.spell]
+  | op o => cases o <;> simp [Tok.spell, BOp.text]
+  | destAlt => simp [Tok.spell]
+  | str v => simp [Tok.spell, encodeString]
+  | chunk v =>
+    simp only [Tok.wf, Bool.and_eq_true, Bool.not_eq_true', List.isEmpty_eq_false_iff] at h
+    have := encodeBody_ne_nil v h.2
+    simp only [Tok.spell]
+    exact List.length_pos_iff.mpr this
+  | strStart => simp [Tok.spell]
+  | strQuery => simp [Tok.spell]
+  | strEnd => simp [Tok.spell]
+  | bad _ => cases h
+
+/-- there are at most as many tokens as bytes -/
+theorem toks_le_render : ∀ (items : List Item) (last : Option UInt8) (inStr : Bool) (stk : List Nat),
+    itemsOK last inStr stk items = true → (toks items).length ≤ (render last items).length := by
+  intro items
+  induction items with
+  | nil => intro _ _ _ _; simp
+  | cons it r ih =>
+    intro last inStr stk hok
+    cases it with
+    | t t =>
+      simp only [itemsOK, Bool.and_eq_true, beq_iff_eq] at hok
+      obtain ⟨⟨⟨hwf, _⟩, _⟩, hr⟩ := hok
+      have := ih _ _ _ hr
+      have := Tok.wf_spell_ne t hwf
+      simp only [toks, render, List.length_cons, List.length_append]
+      omega
+    | sp =>
+      simp only [itemsOK, Bool.and_eq_true] at hok
+      have := ih _ _ _ hok.2
+      simp only [toks, render, List.length_cons]; omega
+    | nl =>
+      simp only [itemsOK, Bool.and_eq_true] at hok
+      have := ih _ _ _ hok.2
+      simp only [toks, render, List.length_cons]; omega
+    | soft =>
+      simp only [itemsOK, Bool.and_eq_true] at hok
+      obtain ⟨_, hr⟩ := hok
+      simp only [toks, render]
+      cases last with
+      | none => exact ih _ _ _ hr
+      | some ch =>
+        simp only [] at hr ⊢
+        split
+        · next hd =>
+          simp only [hd, if_true] at hr
+          have := ih _ _ _ hr
+          simp only [List.length_cons]; omega
+        · next hd =>
+          simp only [hd, if_false, Bool.false_eq_true] at hr
+          exact ih _ _ _ hr
+
+/-- THE PRINTED TEXT LEXES TO THE PRINTED TOKENS: for a token sequence with the printer's
+    separators that satisfies the adjacency condition, the tokenizer (lexer model + interpolation
+    feedback) applied to the rendered bytes returns exactly the tokens -/
+theorem tokensOf_render (items : List Item) (h : itemsOK none false [] items = true) :
+    tokensOf (render none items) = toks items := by
+  rw [tokensOf_tkz]
+  exact lex_items items none false [] _ h (by have := toks_le_render items none false [] h; omega)
 
 end Gojq.RefTerm
